@@ -206,10 +206,59 @@ func (c *pfxCase) obsPeer(j int) {
 	fmt.Fprintf(c.w, "obs peer %d %d %d %d %s %s %s\n", j, known, latest, f, pend, infl, idsCSV(ids))
 }
 
+// resolve turns the symbolic last argument of jsync / ans into a number:
+//   jsync j c+K | c-K | =V     (c = the publisher's current sequence number)
+//   ans j - | sK                (sK = the K-th most recent snapshot packet the harness cache has seen, s0 = newest)
+// Symbolic forms keep a recorded history meaningful when operations are removed from it (shrinking).
+func (c *pfxCase) resolve(f []string) string {
+	switch f[0] {
+	case "jsync":
+		cur := c.pubPT.Vf19Me().Latest
+		a := f[2]
+		switch {
+		case strings.HasPrefix(a, "c+"):
+			k, _ := strconv.ParseUint(a[2:], 10, 64)
+			return strconv.FormatUint(cur+k, 10)
+		case strings.HasPrefix(a, "c-"):
+			k, _ := strconv.ParseUint(a[2:], 10, 64)
+			if k > cur {
+				k = cur
+			}
+			return strconv.FormatUint(cur-k, 10)
+		case strings.HasPrefix(a, "="):
+			return a[1:]
+		}
+		return a
+	case "ans":
+		if strings.HasPrefix(f[2], "s") {
+			var l []uint64
+			for s := range c.snapWire {
+				l = append(l, s)
+			}
+			sort.Slice(l, func(a, b int) bool { return l[a] > l[b] })
+			k, _ := strconv.Atoi(f[2][1:])
+			if len(l) == 0 {
+				return "0"
+			}
+			if k >= len(l) {
+				k = len(l) - 1
+			}
+			return strconv.FormatUint(l[k], 10)
+		}
+		return "-"
+	}
+	return ""
+}
+
 // exec runs one operation against the implementation and writes the op line and the observations after it.
 func (c *pfxCase) exec(op string) {
-	fmt.Fprintf(c.w, "op %s\n", op)
 	f := strings.Fields(op)
+	if f[0] == "jsync" || f[0] == "ans" {
+		f = append(f[:3:3], c.resolve(f))
+		fmt.Fprintf(c.w, "op %s %s\n", op, f[3])
+	} else {
+		fmt.Fprintf(c.w, "op %s\n", op)
+	}
 	atoi := func(s string) int { v, _ := strconv.Atoi(s); return v }
 	switch f[0] {
 	case "pa":
@@ -243,7 +292,7 @@ func (c *pfxCase) exec(op string) {
 		}
 		p.r.Vf19Locked(func() { p.r.Vf19Rib().Set(c.pubName, c.nbName, cost) })
 	case "jsync":
-		v, _ := strconv.ParseUint(f[2], 10, 64)
+		v, _ := strconv.ParseUint(f[3], 10, 64)
 		c.peers[j].r.Vf19OnPfxSyncUpdate(ndn_sync.SvSyncUpdate{NodeId: c.pubName, High: v, Low: 0})
 	case "jkick":
 		c.peers[j].r.Vf19PrefixDataFetch(c.pubName)
@@ -254,10 +303,10 @@ func (c *pfxCase) exec(op string) {
 		switch {
 		case strings.HasPrefix(pend, "op:"):
 			w = c.askPublisher(ps[0].interest.Wire)
-		case pend == "snap" && f[2] == "-":
+		case pend == "snap" && f[3] == "-":
 			w = c.askPublisher(ps[0].interest.Wire)
 		case pend == "snap":
-			s, _ := strconv.ParseUint(f[2], 10, 64)
+			s, _ := strconv.ParseUint(f[3], 10, 64)
 			w = c.snapWire[s] // nil if the cache never saw it
 		}
 		if w != nil {
@@ -369,19 +418,19 @@ func genPfxCase(w *bufio.Writer, rng *rand.Rand, k int, budget int) []string {
 			q := rng.Intn(100)
 			switch {
 			case q < 22:
-				v := curSeq()
+				v := "c+0"
 				z := rng.Intn(20)
 				switch {
 				case z == 0:
-					v = 0
+					v = "=0"
 				case z == 1:
-					v += uint64(1 + rng.Intn(120))
-				case z == 2 && v > s0:
-					v = s0 + uint64(rng.Int63n(int64(v-s0)+1))
+					v = fmt.Sprintf("c+%d", 1+rng.Intn(120))
+				case z == 2 && curSeq() > s0:
+					v = fmt.Sprintf("c-%d", rng.Int63n(int64(curSeq()-s0)+1))
 				case z == 3:
-					v = uint64(rng.Intn(300))
+					v = fmt.Sprintf("=%d", rng.Intn(300))
 				}
-				do(fmt.Sprintf("jsync %d %d", j, v))
+				do(fmt.Sprintf("jsync %d %s", j, v))
 			case q < 26:
 				if rng.Intn(4) == 0 {
 					do(fmt.Sprintf("jreach %d 0", j))
@@ -392,7 +441,7 @@ func genPfxCase(w *bufio.Writer, rng *rand.Rand, k int, budget int) []string {
 				do(fmt.Sprintf("jkick %d", j))
 			case q < 55:
 				if ss := snapSeqs(); len(ss) > 0 && rng.Intn(6) == 0 {
-					do(fmt.Sprintf("ans %d %d", j, ss[rng.Intn(len(ss))]))
+					do(fmt.Sprintf("ans %d s%d", j, rng.Intn(len(ss))))
 				} else {
 					do(fmt.Sprintf("ans %d -", j))
 				}
@@ -406,7 +455,7 @@ func genPfxCase(w *bufio.Writer, rng *rand.Rand, k int, budget int) []string {
 				}
 			default: // catch up completely: sync to the current number, then answer/deliver until quiet
 				do(fmt.Sprintf("jreach %d 1", j))
-				do(fmt.Sprintf("jsync %d %d", j, curSeq()))
+				do(fmt.Sprintf("jsync %d c+0", j))
 				for i := 0; i < 140; i++ {
 					if pend, _ := c.pendingOf(c.peers[j]); pend == "-" {
 						break
@@ -433,6 +482,9 @@ func replayPfxCase(w *bufio.Writer, ops []string) {
 			continue
 		}
 		f := strings.Fields(op)
+		if (f[0] == "jsync" || f[0] == "ans") && len(f) > 3 {
+			op = strings.Join(f[:3], " ")
+		}
 		if f[0] != "pa" && f[0] != "pw" && f[0] != "jnew" {
 			if j, _ := strconv.Atoi(f[1]); c.peers[j] == nil {
 				continue // shrinking may have removed the peer's creation
